@@ -7,7 +7,7 @@ HOOKS = {
 }
 
 ENGINES = [
-    {"name": "schedmc", "path": "/verif/schedmc", "serves_properties": ["C06", "C07", "C20"],
+    {"name": "schedmc", "path": "/verif/schedmc", "serves_properties": ["C03", "C06", "C07", "C09", "C11", "C19", "C20"],
      "kind_free_text": "Engine B: controlled-scheduler model checker for the real mpx/rpc code: a go/ast instrumenter rewrites sync, sync/atomic, go, select and channel operations of mpx, rpc, internal/writer and the baselibrary primitives to shims of a cooperative scheduler (injected by go build -overlay); stateless DFS over schedules with preemption / free-switch / environment-deviation bounds; fake transport, virtual time, deterministic LIFO pools; explicit-state BFS over event sequences for flow control; TLA+/TLC model bound to the code by edge-by-edge graph comparison"},
     {"name": "seqmc", "path": "/verif/seqmc", "serves_properties": ["C01", "C02", "C08", "C10", "C12", "C13", "C17"],
      "kind_free_text": "Engine A: bounded-exhaustive sequential explorer (deterministic enumerators over boundary alphabets, sharded worker processes, guard-page memory, explicit-state BFS over operation sequences with replay on fresh instances)"},
@@ -18,6 +18,30 @@ NOTES = "All checks are driven by bin/vcheck (lib/vcheck.py): it rebuilds the en
 NOT_APPLICABLE = {}
 
 CHECKS = {
+    "C03": {
+        "engine": "schedmc", "level": "model_checking", "design_ref": "DESIGN.md §P C03",
+        "technique": "stateless model checking under a controlled scheduler: exhaustive DFS over all schedules (bounds p,f,e = 1,1,1 quick / 2,1,1 thorough) of a real client conn and server conn with their real loops over a fake transport, for a configuration alphabet of window/queue/buffer/compression/short-read settings",
+        "text": "A real client connection and a real server connection run their real handshake, receive loop, send loop and handler tasks over a scheduler-controlled byte stream. Scenario S1: two channels, both directions, last message on the closing frame; S2: payload on the opening frame, on the closing frame, and SendAndClose on a never-opened channel (open+close batch). Configurations: windows 3 / 8 / 16 MiB (thorough also 1), 16-byte and 16 MiB write queues, 16-byte and 32 KiB buffers, compression on/off, 3-byte short reads; message sizes {1,W/2,W,W+1,3W}. Oracle per channel and direction: the received sequence is a byte-exact prefix of the sent one, and the whole sequence when the receiver drained to the end status; no error is logged; no deadlock.",
+        "note": "Two channels on one connection are explored, not 'any number'; lz4 itself is library code run synchronously; the receiver reads with a context of its own (with the channel's context a blocked Receive may return Cancelled instead of the end status, which the statement permits).",
+    },
+    "C09": {
+        "engine": "schedmc", "level": "fault_enumeration", "design_ref": "DESIGN.md §P C09",
+        "technique": "exhaustive fault-point enumeration: every byte offset of each direction of six recorded sessions x {cut, half-close}, each executed on the real client+server connections under the controlled scheduler (default schedule plus one free switch; thorough: one preemption)",
+        "text": "Six sessions (handshake+open, echo, Send blocked on a closed window, Send blocked on a full write queue, lz4 stream, frame larger than the buffers) are recorded once without a fault; then for EVERY byte offset k of either direction the transport is cut (both directions fail) or half-closed after exactly k bytes. Oracle in every execution: every public call returns (a stuck waiter is a deadlock of the execution), both connections close, every handler is released, every channel context is cancelled, nothing is delivered that was not sent, no panic is logged, new calls on the dead connection fail.",
+        "note": "'Within bounded time' is decided in virtual time (every maximal execution terminates); fault offsets are those of the default-schedule recording; client recovery after a fault is covered by the C19 scenarios (scripted connector).",
+    },
+    "C11": {
+        "engine": "schedmc", "level": "model_checking", "design_ref": "DESIGN.md §P C11",
+        "technique": "exhaustive enumeration of scripted peer sessions (12 handshake variants; all frame sequences of length <=2/3 over a 15-frame alphabet) against the real server entry point under the controlled scheduler with preemption bound 1, concurrently with a well-behaved client",
+        "text": "A raw peer writes a handshake variant (correct, split reads, extra versions, unknown compression, no/unsupported versions, no line, wrong line, unterminated line, response/open/garbage as first frame) and then every sequence of up to 2 (quick) / 3 (thorough) frames from {open, data, window, close, open+close batch, nested batch, unknown code, repeated connect request, garbage, parser-hostile payload, empty, truncated, oversized length} into the real server.handle, while a real client uses a second connection of the same server. Oracle: handlers run exactly for the valid opens of negotiated connections (reference model of the session), never on a refused or malformed handshake; a refused peer reads the refusal and then EOF; the well-behaved client's echo is undisturbed; no panic is logged.",
+        "note": "Length prefixes up to 16 MiB are executed; a 2^32-1 prefix is not (it requests a 4 GiB allocation per connection).",
+    },
+    "C19": {
+        "engine": "schedmc", "level": "model_checking", "design_ref": "DESIGN.md §P C19",
+        "technique": "stateless model checking under a controlled scheduler of the real mpx client with a scheduler-controlled connector and virtual time (bounds up to p=2,f=2,e=2 quick), plus whole-domain enumeration of the back-off function",
+        "text": "The real client (on-demand and auto-connect) is driven with a connector whose dial outcomes are scripted or explorable environment choices; scenarios: concurrent Conn/Channel callers vs Close, server drop (clean close / transport cut) racing a caller followed by recovery, auto-connect with runs of dial failures under virtual time. At every quiescent point: exactly one of Connected/Disconnected, Connected implies Conn() returns a usable connection without dialling, live connections never exceed the maximum, Close is idempotent and terminal with nothing left open; back-off gaps within [25ms,1s] and non-decreasing; reconnectTimeout checked for every attempt 2..70000 and the shift-overflow region.",
+        "note": "Dialling is replaced by the fake connector; timers fire only when no thread is enabled.",
+    },
     "C06": {
         "engine": "schedmc", "level": "model_checking", "design_ref": "DESIGN.md §P C06",
         "technique": "stateless model checking of the real mpx code under a controlled scheduler: exhaustive DFS over all schedules of narrow 3-4 thread seams within a preemption bound (CHESS-style iterative context bounding)",
